@@ -16,6 +16,7 @@ import (
 	"github.com/bbockelm/cedar/message"
 	"github.com/bbockelm/cedar/security"
 	"github.com/bbockelm/cedar/server"
+	"github.com/bbockelm/cedar/stream"
 )
 
 func init() {
@@ -337,6 +338,111 @@ func Duplex(seed int64, conns int, yield bool) NetStats {
 		}(c)
 	}
 	cw.Wait()
+	st.Fails = fails.fails
+	return st
+}
+
+// Managers: many overlapping handshakes through ONE shared security.SecurityManager
+// on the server side (sm.ServerHandshake on every accepted connection) and ONE
+// on the client side (sm.ClientHandshake), followed by an echo on the negotiated
+// channel. sequential=true runs the same exchanges one at a time (baseline).
+func Managers(seed int64, clients, iters int, sequential, yield bool) NetStats {
+	var st NetStats
+	fails := &failSink{}
+	ln, err := net.Listen("tcp", "127.0.0.1:0")
+	if err != nil {
+		st.Fails = []FuncFail{{"driver", err.Error()}}
+		return st
+	}
+	defer func() { _ = ln.Close() }()
+	smServer, smClient := security.NewSecurityManager(), security.NewSecurityManager()
+	var encrypted int64
+	go func() {
+		for {
+			conn, err := ln.Accept()
+			if err != nil {
+				return
+			}
+			go func() {
+				defer func() { _ = conn.Close() }()
+				ctx, cancel := context.WithTimeout(context.Background(), 20*time.Second)
+				defer cancel()
+				s := stream.NewStream(conn)
+				if err := smServer.ServerHandshake(ctx, s); err != nil {
+					return // the client side records the failure
+				}
+				got, err := message.NewMessageFromStream(s).GetString(ctx)
+				if err != nil {
+					return
+				}
+				out := message.NewMessageForStream(s)
+				if err := out.PutString(ctx, got); err != nil {
+					return
+				}
+				_ = out.FinishMessage(ctx)
+			}()
+		}
+	}()
+	addr := ln.Addr().String()
+	one := func(tag string) {
+		ctx, cancel := context.WithTimeout(context.Background(), 20*time.Second)
+		defer cancel()
+		conn, err := net.DialTimeout("tcp", addr, 10*time.Second)
+		atomic.AddInt64(&st.Handshakes, 1)
+		if err != nil {
+			fails.add("handshake_error", "dial: "+err.Error())
+			return
+		}
+		defer func() { _ = conn.Close() }()
+		s := stream.NewStream(conn)
+		if err := smClient.ClientHandshake(ctx, s); err != nil {
+			fails.add("handshake_error", err.Error())
+			return
+		}
+		atomic.AddInt64(&st.Fresh, 1)
+		if s.IsEncrypted() {
+			atomic.AddInt64(&encrypted, 1)
+		}
+		out := message.NewMessageForStream(s)
+		if err := out.PutString(ctx, tag); err != nil {
+			fails.add("echo_error", err.Error())
+			return
+		}
+		if err := out.FinishMessage(ctx); err != nil {
+			fails.add("echo_error", err.Error())
+			return
+		}
+		got, err := message.NewMessageFromStream(s).GetString(ctx)
+		if err != nil {
+			fails.add("echo_error", err.Error())
+			return
+		}
+		if got != tag {
+			fails.add("echo_mismatch", fmt.Sprintf("sent %q got %q", tag, got))
+			return
+		}
+		atomic.AddInt64(&st.Messages, 1)
+	}
+	var cw sync.WaitGroup
+	for c := 0; c < clients; c++ {
+		run := func(c int) {
+			defer cw.Done()
+			for i := 0; i < iters; i++ {
+				one(fmt.Sprintf("mgr-%d-%d-%d", seed, c, i))
+				if yield {
+					runtime.Gosched()
+				}
+			}
+		}
+		cw.Add(1)
+		if sequential {
+			run(c)
+		} else {
+			go run(c)
+		}
+	}
+	cw.Wait()
+	st.Resumed = atomic.LoadInt64(&encrypted) // for this phase: handshakes that ended on an encrypted stream
 	st.Fails = fails.fails
 	return st
 }
